@@ -47,6 +47,17 @@ Theorem savepoint_folds : forall s ops p,
 Proof. exact savepoint_folds_lemma. Qed.
 Print Assumptions savepoint_folds.
 
+(* If, when the artifact is written, a file that the savepoint's checkpoint of some operator references is gone (its
+   copy fails with "not found"), NO savepoint is produced - the job file never appears under its savepoint name - for
+   every file system, operator list and position of the failing copy: an incomplete savepoint is never published. *)
+Theorem savepoint_not_published_when_incomplete : forall ops fs id op cid l e f,
+  In (op, cid) ops ->
+  fs_read fs (UWork op ck_name) = Some (FCkList l) -> find (fun e => fst e =? cid) l = Some e -> In f (snd e) ->
+  fs_read fs (UWork op f) = None ->
+  sp_create true fs id ops = None.
+Proof. exact sp_create_missing_lemma. Qed.
+Print Assumptions savepoint_not_published_when_incomplete.
+
 (* At the job (jobs/job.go HandleCreateSavepoint): a request that folds broadcasts NO StartCheckpoint to the source
    runners and moves no counter; a request with nothing pending broadcasts exactly one, for the new id - so every
    checkpoint id gets exactly one StartCheckpoint round (the tick's, or the savepoint's). *)
